@@ -29,6 +29,12 @@ IMPORT_MODS = ['os', 'sys', 're', 'json', 'math', 'time', 'random', 'string', 's
                'operator', 'pathlib', 'fnmatch', 'linecache', 'tempfile', 'textwrap', 'difflib', 'uuid']
 
 
+DOTTED = [('os', 'os.path'), ('xml', 'xml.dom'), ('json', 'json.decoder'), ('email', 'email.utils'),
+          ('logging', 'logging.config'), ('urllib', 'urllib.parse'), ('importlib', 'importlib.util'),
+          ('concurrent', 'concurrent.futures'), ('http', 'http.client'), ('unittest', 'unittest.mock'),
+          ('collections', 'collections.abc'), ('multiprocessing', 'multiprocessing.pool')]
+
+
 class Gen(object):
     def __init__(self, rng, allow_return=True, allow_try=True, full_raise=False, max_depth=3,
                  max_stmts=10, multi_handlers=True, names=None, exits=False):
@@ -45,6 +51,9 @@ class Gen(object):
         self.budget = max_stmts
         self.mods = list(IMPORT_MODS)
         rng.shuffle(self.mods)
+        self.dotted = list(DOTTED)
+        rng.shuffle(self.dotted)
+        self.pending = []           # statements to emit right after the current one
         self.exits = exits          # C01: break / continue / raise anywhere
         self.loop_depth = 0
 
@@ -66,6 +75,8 @@ class Gen(object):
                 break
             st = self.stmt(depth, in_finally, no_ret)
             out.append(st)
+            while self.pending:
+                out.append(self.pending.pop(0))
             if st[0] in ('return', 'break', 'continue', 'raise'):
                 break
         return out or [('pass',)]
@@ -99,7 +110,16 @@ class Gen(object):
             forms = ['plain'] * 6 + ['ann', 'walrus', 'tuple', 'chain', 'star', 'def', 'class']
             if self.mods:
                 forms += ['import', 'from']
+            if self.dotted:
+                forms += ['dotted']
             form = self.rng.choice(forms)
+            if form == 'dotted':
+                # `import pkg.mod` binds pkg; usually read right afterwards
+                pkg, mod = self.dotted.pop()
+                d = self.new()
+                if self.rng.random() < 0.75:
+                    self.pending.append(('expr', [(self.new(), pkg)]))
+                return ('assign', [], [(d, pkg)], 'dotted:' + mod)
             rd = self.reads(0, 2)
             if form in ('tuple', 'chain', 'star'):
                 b1, b2 = self.bind(), self.bind()
@@ -173,6 +193,9 @@ class Gen(object):
 def name_id(x):
     if x in POOL:
         return POOL.index(x)
+    for i, (pkg, _m) in enumerate(DOTTED):
+        if x == pkg:
+            return 50 + i
     m = re.match(r'e(\d+)$', x)
     if m:
         return 100 + int(m.group(1))
@@ -340,6 +363,11 @@ class Renderer(object):
                 self.emit(ind, 'import %s as %s' % (mod, self.tgt(d, x)))
                 if ins:
                     self.emit(ind, '_reg(%r, %s, %d)' % (x, x, d))
+            elif form.startswith('dotted:'):
+                mod = form.split(':')[1]
+                self.emit(ind, 'import %s%s' % ('' if ins else '', mod) if ins else 'import %s' % mk('d', d, mod))
+                if ins:
+                    self.emit(ind, '_reg(%r, %s, %d)' % (x, x, d))
             elif form.startswith('from:'):
                 mod = form.split(':')[1]
                 self.emit(ind, 'from %s import __name__ as %s' % (mod, self.tgt(d, x)))
@@ -432,13 +460,56 @@ HEADER_PLAIN = {
 }
 
 
-def render_plain(body, scope='func'):
+COMPOUND_START = ('def ', 'class ', 'if ', 'while ', 'for ', 'try:', 'except', 'else:', 'finally:', 'with ', '@', 'async ')
+
+
+def relayout(lines, rng, keep):
+    """Layout-only variation of the plain rendering: consecutive simple statements joined with
+    '; ', and a compound header followed by a single simple body line written as a one-line
+    suite. The first `keep` lines (header) are left alone."""
+    def indent(l):
+        return len(l) - len(l.lstrip(' '))
+
+    def simple(l):
+        t = MARK.sub('', l).strip()
+        return t and not t.startswith(COMPOUND_START) and not t.endswith(':')
+    out = list(lines[:keep])
+    body = lines[keep:]
+    i = 0
+    res = []
+    while i < len(body):
+        l = body[i]
+        t = MARK.sub('', l).strip()
+        # header + exactly one simple body line -> one-line suite
+        if t.endswith(':') and not t.startswith(('def ', 'class ', '@', 'async ')) and i + 1 < len(body) \
+                and indent(body[i + 1]) == indent(l) + 4 and simple(body[i + 1]) \
+                and (i + 2 >= len(body) or indent(body[i + 2]) <= indent(l)) and rng.random() < 0.35:
+            res.append(l + ' ' + body[i + 1].strip())
+            i += 2
+            continue
+        # join simple statements of one block
+        if simple(l) and res and simple(res[-1]) and indent(res[-1]) == indent(l) and ':' not in MARK.sub('', res[-1]).split('#')[0][-1:] \
+                and not MARK.sub('', res[-1]).strip().startswith(COMPOUND_START) and rng.random() < 0.3:
+            # never join onto a one-line suite (it would extend that suite)
+            prev = MARK.sub('', res[-1]).strip()
+            if not any(prev.startswith(k) or (': ' in prev and prev.split(' ')[0] in ('if', 'while', 'for', 'try:', 'except', 'else:', 'finally:', 'with')) for k in COMPOUND_START):
+                res[-1] = res[-1] + '; ' + l.strip()
+                i += 1
+                continue
+        res.append(l)
+        i += 1
+    return out + res
+
+
+def render_plain(body, scope='func', layout_rng=None):
     """Returns (source, reads {site: (line, col, name)}, binds {site: (line, col, name)})."""
     r = Renderer(False)
     head = HEADER_PLAIN[scope].split('\n')
     ind = 0 if scope == 'module' else 1
     r.lines.extend(head)
     r.body(body, ind)
+    if layout_rng is not None:
+        r.lines = relayout(r.lines, layout_rng, len(head))
     reads, binds = {}, {}
     out = []
     for ln, line in enumerate(r.lines, 1):
